@@ -332,6 +332,45 @@ class SolverSeam:
         raise InjectedSingular("Factor is exactly singular (injected)")
 
 
+class AllocSeam:
+    """Counting proxy around `scipy.sparse` inside EasyFEA.Simulations._simu: the k-th construction of a sparse
+    matrix (csr_matrix / diags) during an operation can be made to fail with MemoryError -- the failing allocation
+    of a real run -- so that an assembly is interrupted after some of its slots were built and caches were filled."""
+
+    NAMES = ("csr_matrix", "diags")
+
+    def __init__(self, ctx, simu_module):
+        self.ctx = ctx
+        self.mod = simu_module
+        self.calls = 0
+        self.per_backend = {}
+        self._armed = None
+        self._real = simu_module.sparse
+        while isinstance(self._real, _BackendProxy):
+            self._real = self._real._real
+        simu_module.sparse = _BackendProxy(self._real, self, self.NAMES)
+
+    def close(self):
+        self.mod.sparse = self._real
+
+    def arm(self, fault: dict):
+        self._armed = {"k": int(fault["k"]), "base": self.calls}
+
+    def disarm(self) -> bool:
+        pending = self._armed is not None
+        self._armed = None
+        return pending
+
+    def tick(self, name: str):
+        self.calls += 1
+        a = self._armed
+        if a is None or self.calls - a["base"] < a["k"]:
+            return
+        self._armed = None
+        self.ctx.fired("alloc:memerr")
+        raise InjectedMemoryError("injected allocation failure while building a sparse matrix")
+
+
 # ----------------------------------------------------------------------------
 # clocks
 # ----------------------------------------------------------------------------
